@@ -3,7 +3,8 @@
     of acquisitions of each), and every schedule [sched] (any length; spurious
     wake-ups are schedule events) of the sequentially consistent interleaving
     model [model/Mutex.v] of [Mutex::sys_lock]/[sys_unlock] (Linux futex path). *)
-From Aranya Require Import base.Tactics base.Interleave gen.GenConc model.Mutex proofs.MutexProofs.
+From Aranya Require Import base.Tactics base.Interleave gen.GenConc model.Mutex proofs.MutexProofs
+  proofs.MutexBounded proofs.MutexCasProofs.
 Open Scope N_scope.
 
 Theorem mutex_exclusive : mutex_exclusive_stmt.
@@ -65,3 +66,42 @@ Check free_lock_acquirable :
   at_ g t l -> key (sh g) = 0 -> lockingb (lpc l) = true -> asleepb t l (sh g) = false ->
   exists k l', (k <= 3)%nat /\ at_ (mrun (solo t k) g) t l' /\ holdingb (lpc l') = true.
 Print Assumptions free_lock_acquirable.
+
+(** "Eventually acquires", possibility form: from every reachable state every
+    thread inside [sys_lock] (spinning, about to sleep, or asleep in the futex
+    queue) has a continuation without any spurious wake-up in which it holds
+    the lock.  (Under a strongly fair scheduler of this finite-state system this
+    is what "eventually" amounts to; see level_note.) *)
+Theorem acquire_possible : acquire_possible_stmt.
+Proof. exact acquire_possible_proof. Qed.
+Check acquire_possible :
+  forall (ns : list nat) (sched : list event) (t : nat) (l : local),
+  let g := mrun sched (init ns) in
+  at_ g t l -> lockingb (lpc l) = true ->
+  exists sched',
+    Forall (fun e => match e with Run _ _ => True | Spur _ => False end) sched'
+    /\ exists l', at_ (mrun sched' g) t l' /\ holdingb (lpc l') = true.
+Print Assumptions acquire_possible.
+
+(** Bounded liveness (finite domain, bound in the statement): 2 threads x 1 or 2
+    acquisitions and 3 threads x 1 acquisition; the reachable state sets (219,
+    2903 and 13222 states) are enumerated and proved closed under every event. *)
+Theorem rr_terminates_bounded : rr_terminates_bounded_stmt.
+Proof. exact rr_terminates_bounded_proof. Qed.
+Check rr_terminates_bounded :
+  forall (ns : list nat), In ns [[1; 1]; [2; 2]; [1; 1; 1]]%nat ->
+  forall (sched : list event), rr_done 20 (mrun sched (init ns)) = true.
+Print Assumptions rr_terminates_bounded.
+
+(** The CAS-only fallback ([cas_mutex] feature, no libc, or another OS): its own
+    small model [cstep]; exclusion, word = 0 iff free, and no thread is ever blocked. *)
+Theorem cas_mutex_exclusive : cas_mutex_exclusive_stmt.
+Proof. exact cas_mutex_exclusive_proof. Qed.
+Check cas_mutex_exclusive :
+  forall (ns : list nat) (sched : list nat),
+  let g := crun sched (cinit ns) in
+  (forall t1 l1 t2 l2, at_ g t1 l1 -> at_ g t2 l2 ->
+     choldingb (cpc_of l1) = true -> choldingb (cpc_of l2) = true -> t1 = t2)
+  /\ (ckey (sh g) = 0 <-> forall t l, at_ g t l -> choldingb (cpc_of l) = false)
+  /\ (forall t l, at_ g t l -> cpc_of l <> CDone -> enabled (fun t : nat => t) cstep t g = true).
+Print Assumptions cas_mutex_exclusive.
